@@ -8,3 +8,4 @@ import MoreExec.Props.C08
 #print axioms MoreExec.Poll.C08_prompt
 #print axioms MoreExec.Poll.C08_cancel_fn_argument
 #print axioms MoreExec.Poll.C08_cancel_fn_veto
+#print axioms MoreExec.Poll.C08_source_facts
